@@ -44,7 +44,18 @@ def values(n):
     for v in ds.upto(n):
         if pairspace_nonempty(v):
             out.append(v)
+            r = reversed_keys(v)
+            if json.dumps(r) != json.dumps(v):
+                out.append(r)       # same data, keys written in the opposite order (YAML and plist writers sort keys, JSON does not)
     return out
+
+
+def reversed_keys(v):
+    if isinstance(v, dict):
+        return {k: reversed_keys(v[k]) for k in reversed(list(v))}
+    if isinstance(v, list):
+        return [reversed_keys(x) for x in v]
+    return v
 
 
 def pairspace_nonempty(v):
@@ -113,19 +124,21 @@ def third_eval(x, z):
     n = 0
     try:
         with time_limit(CASE_TIMEOUT):
-            opt = ('auto', 'on')
-            tx = {f: load(f, x, opt) for f in FORMATS}
-            tz = {f: load(f, z, opt) for f in FORMATS}
-            ref = None
             fails = {}
-            for f, g in itertools.product(FORMATS, repeat=2):
-                c, cls = cost(tx[f], tz[g])
-                n += 1
-                if ref is None:
-                    ref = (c, f, g)
-                elif c != ref[0]:
-                    fails.setdefault(f'cost_depends_on_formats @ {cls} : from {f} to {g}',
-                                     f'{x!r} vs {z!r}: {ref[1]}->{ref[2]} costs {ref[0]}, {f}->{g} costs {c}')
+            for opt in pairspace.relevant_options(x, z):
+                if opt[1] == 'samelen':
+                    continue
+                tx = {f: load(f, x, opt) for f in FORMATS}
+                tz = {f: load(f, z, opt) for f in FORMATS}
+                ref = None
+                for f, g in itertools.product(FORMATS, repeat=2):
+                    c, cls = cost(tx[f], tz[g])
+                    n += 1
+                    if ref is None:
+                        ref = (c, f, g)
+                    elif c != ref[0]:
+                        fails.setdefault(f'cost_depends_on_formats @ {cls} : from {f} to {g}',
+                                         f'{x!r} vs {z!r} (dict={opt[0]}, lists={opt[1]}): {ref[1]}->{ref[2]} costs {ref[0]}, {f}->{g} costs {c}')
             return n, [{'key': k, 'detail': d} for k, d in fails.items()]
     except CaseTimeout:
         return n, [{'key': 'timeout @ diff : third value', 'detail': repr((x, z))}]
@@ -160,6 +173,17 @@ def jobs(tier):
         for z in small:
             from mc.gen import size
             if size(x) + size(z) <= (4 if q else 5) and canon(x) != canon(z):
+                out.append(('third', [x, z]))
+    # two-key mappings with the same key set and different values, keys written in either order on either side
+    vals3 = ('a', 1, 1.5)
+    two = []
+    for v1 in vals3:
+        for v2 in vals3:
+            two.append({'a': v1, 'no': v2})
+            two.append({'no': v2, 'a': v1})
+    for x in two:
+        for z in two:
+            if canon(x) != canon(z):
                 out.append(('third', [x, z]))
     out += [('cli', v) for v in values(3)]
     return out
